@@ -64,3 +64,21 @@ Theorem C12_reply_then_close_witness :
     nth_error d 3 = Some (OSend 1 (build "LEAVE_ACK" [(bs "id", VNum 7)]) None) /\
     nth_error d 4 = Some (OClose 1 (err_msg None "INTERNAL_SERVER_ERROR")).
 Proof. exact Witness.C12_reply_then_close. Qed.
+
+(* ---- outbound frames that do not fit the message buffer (Model/ServerX.v; types pasted from Proofs/ServerXProofs.v) ---- *)
+From NW Require Import Model.ServerX Proofs.ServerXProofs.
+
+Theorem C12_oversize_reply_replaced_under_its_own_id :
+  forall (cfg : scfg) (h : N) (m : SchemaTypes.msg) (p : option (list N)),
+    match shrink_reply cfg (OSend h m p) with
+    | OSend h' m' p' =>
+        h' = h /\
+        p' = p /\
+        (m' = m \/
+         oversize cfg m = true /\
+         (exists id : N,
+            MsgInfo.correlation_id Schema.schema m = Some id /\
+            m' = err_msg (Some id) "RESPONSE_TOO_LARGE"))
+    | _ => False
+    end.
+Proof. exact shrink_reply_same_id. Qed.
